@@ -30,6 +30,15 @@ class Replayer:
                 self.p.stdin.write(line.strip() + '\n')
                 self.p.stdin.flush()
                 ans = self.p.stdout.readline()
+                # the code under test may print to stdout (n2: warn ...): answers carry a marker
+                noise = []
+                while ans and not ans.startswith('@@'):
+                    noise.append(ans.rstrip('\n'))
+                    ans = self.p.stdout.readline()
+                if ans:
+                    ans = ans[2:]
+                    if noise:
+                        ans = ans.rstrip('\n') + ' [stdout: ' + ' | '.join(noise)[:300] + ']\n'
             except BrokenPipeError:
                 ans = ''
             if not ans:
